@@ -77,13 +77,15 @@ func (s *sessionMetadatasState) Create(id string, clientID string, connectedAt i
 		Peer:        s.peer,
 		LastAdded:   clock(),
 	}
-	err := s.set(session)
-	if err != nil {
-		return err
-	}
+	// encode first: a record that cannot be broadcast (e.g. a client id that
+	// is not valid UTF-8) must not stay behind in the local state.
 	buf, err := proto.Marshal(&api.StateBroadcastEvent{
 		SessionMetadatas: []*api.SessionMetadatas{&session},
 	})
+	if err != nil {
+		return err
+	}
+	err = s.set(session)
 	if err != nil {
 		return err
 	}
